@@ -1,0 +1,85 @@
+//go:build verif
+
+package main
+
+// Case-file driven driver for the verification harness (property C08): calls the unexported
+// writeMdat with the mdat of a file decoded in memory and decoded lazily.
+//
+// Input  ($C08_CASES), one case per line:  C <id> <file hex> <start-end,start-end,...>   (absolute, end included)
+// Output ($C08_OUT):                       <id> <in-memory result> <lazy result>          (o:<hex written>|e|p)
+
+import (
+	"bufio"
+	"bytes"
+	"encoding/hex"
+	"fmt"
+	"os"
+	"strconv"
+	"strings"
+	"testing"
+
+	"github.com/Eyevinn/mp4ff/mp4"
+)
+
+func TestVerifC08(t *testing.T) {
+	in, outPath := os.Getenv("C08_CASES"), os.Getenv("C08_OUT")
+	if in == "" || outPath == "" {
+		t.Skip("C08_CASES / C08_OUT not set")
+	}
+	fi, err := os.Open(in)
+	if err != nil {
+		t.Fatal(err)
+	}
+	defer fi.Close()
+	fo, err := os.Create(outPath)
+	if err != nil {
+		t.Fatal(err)
+	}
+	defer fo.Close()
+	w := bufio.NewWriter(fo)
+	defer w.Flush()
+	sc := bufio.NewScanner(fi)
+	sc.Buffer(make([]byte, 1<<20), 1<<28)
+	for sc.Scan() {
+		f := strings.Split(sc.Text(), " ")
+		if len(f) != 4 || f[0] != "C" {
+			continue
+		}
+		data, err := hex.DecodeString(f[2])
+		if err != nil {
+			t.Fatal(err)
+		}
+		br := createByteRanges()
+		for _, r := range strings.Split(f[3], ",") {
+			p := strings.Split(r, "-")
+			s, _ := strconv.ParseUint(p[0], 10, 64)
+			e, _ := strconv.ParseUint(p[1], 10, 64)
+			br.ranges = append(br.ranges, byteRange{s, e})
+		}
+		fmt.Fprintf(w, "%s %s %s\n", f[1], c08Run(data, br, false), c08Run(data, br, true))
+	}
+}
+
+func c08Run(data []byte, br *byteRanges, lazy bool) (res string) {
+	defer func() {
+		if r := recover(); r != nil {
+			res = "p"
+		}
+	}()
+	rs := bytes.NewReader(data)
+	var mf *mp4.File
+	var err error
+	if lazy {
+		mf, err = mp4.DecodeFile(rs, mp4.WithDecodeMode(mp4.DecModeLazyMdat))
+	} else {
+		mf, err = mp4.DecodeFile(rs)
+	}
+	if err != nil || mf.Mdat == nil {
+		return "e"
+	}
+	var buf bytes.Buffer
+	if err = writeMdat(br, mf.Mdat, &buf, rs); err != nil {
+		return "e"
+	}
+	return "o:" + hex.EncodeToString(buf.Bytes())
+}
